@@ -27,7 +27,7 @@ from hypothesis import strategies as st
 import nfc.tag
 
 from vlib import tagdev
-from vlib.engine import Leg, Violation, unexpected
+from vlib.engine import Leg, Violation, unexpected, twin_env
 from props import tagcommon as tc
 
 PROPERTY = "C01"
@@ -828,3 +828,10 @@ LEGS = [
         rule="every message length 0..capacity+1 on fixed small layouts of "
              "each tag type (5 layouts quick, 9 thorough)."),
 ]
+
+# the same searches with every nfc logger enabled down to the lowest level
+# (code that only runs, or only evaluates its arguments, when logging is on)
+_byl = dict((lg.name, lg) for lg in LEGS)
+LEGS += [twin_env(_byl[n], "log", {"VERIF_LOG": "debug"}, quick=q, thorough=t,
+                  shards_quick=2)
+         for n, q, t in [('t2t', 300, 3000), ('t4t', 200, 2000)] if n in _byl]
